@@ -247,6 +247,7 @@ def run(ctx):
                     bad = 'array length %d for %d lanes' % (at['count'], N)
             elif tr in ('Display', 'Debug') and mname == 'fmt':
                 groups = {}
+                bad_ty = None
                 for (d, descs, pc, fn) in r.effects:
                     if not (d.endswith('::new_display') or d.endswith('::new_debug') or d.endswith('::field') or d.endswith('::new_lower_hex')):
                         continue
@@ -255,9 +256,13 @@ def run(ctx):
                             m = re.findall(r'a0\*@(\d+)', str(de[2][0][1]))
                             if m:
                                 groups.setdefault(pc, []).append([int(x) for x in m])
+                                if tr == 'Display' and str(de[1]) != 'bool':
+                                    bad_ty = str(de[1])
                 exp = [[mv0[1]['lanes'][i][0]] for i in range(N)]
                 if not groups:
                     bad = 'no formatted lane arguments found'
+                if bad_ty:
+                    bad = 'Display formats the lanes as %s, not as the booleans they denote (BVecN prints true / false)' % bad_ty
                 for pc, seq in groups.items():
                     if seq != exp:
                         bad = 'formats lanes at byte offsets %s, expected exactly %s in order' % (seq, exp)
